@@ -513,6 +513,9 @@ func genC15(r *sim.Rand, tier string) *sim.Program {
 		p.Add("crl1", iss, r.PickInt(0, 1, 2, 5), -r.Intn(48), r.PickInt(24, 24*7, 0), signWith, b2iInt(r.Chance(1, 5)), b2iInt(r.Chance(1, 10)), r.Intn(1<<16), 1+r.Intn(255))
 		nobjs++
 	}
+	if r.Chance(1, 5) {
+		p.Add("ipnc", r.Intn(1<<30), r.Intn(2), r.Intn(64), r.Intn(2), r.Intn(6))
+	}
 	for i := 0; i < nops; i++ {
 		// (the mix of the older operations is left as it was; the direct checks and the deprecated revocation list come on top)
 		if r.Chance(1, 8) {
